@@ -73,6 +73,9 @@ def generate_twins(rng):
                                          "bodies": [rng.choice([0, "postpone"]) for _ in range(n)]}]}]
     for i in range(rng.randint(1, 2)):
         bodies = [period * rng.choice(fractions) if rng.random() < 0.8 else 0 for _ in range(n)]
+        if rng.random() < 0.4:
+            # bodies that take exactly the period: still on the grid, never "longer than p"
+            bodies = [period if rng.random() < 0.6 else b for b in bodies]
         actors.append({"name": "busy%d" % i, "ops": [{"op": "ticker", "kind": "interval",
                                                        "p": period, "bodies": bodies}]})
     rng.shuffle(actors)
@@ -90,7 +93,7 @@ def valid(case):
             (op,) = actor["ops"]
             if op["op"] != "ticker" or op["kind"] != "interval" or op["p"] <= 0:
                 return False
-            if any(b not in (0, "postpone") and not 0 < b < op["p"] for b in op["bodies"]):
+            if any(b not in (0, "postpone") and not 0 < b <= op["p"] for b in op["bodies"]):
                 return False
             counts.add((len(op["bodies"]), op["p"]))
         return len(counts) == 1 and len(case["scenario"]["actors"]) >= 2
@@ -111,7 +114,7 @@ def check_twins(rec):
             ticks.setdefault(ev[3], []).append(ev[2])
         elif ev[4] == "interval.exceeded":
             out.append({"rule": "C14/spurious-exceeded", "msg": "%s: IntervalExceeded at t=%r "
-                        "although every body is shorter than the period" % (ev[3], ev[2])})
+                        "although no body is longer than the period" % (ev[3], ev[2])})
     names = sorted(ticks)
     n = len(rec.case["scenario"]["actors"][0]["ops"][0]["bodies"]) + 1
     for name in names:
